@@ -357,4 +357,51 @@ theorem Session.run_inv {s : Session} (h : s.Inv) (ops : List StirOp) : (s.run o
   | nil => exact h
   | cons op ops ih => rw [List.foldl_cons]; exact ih (Session.step_inv h op)
 
+/-! ### order after histories -/
+
+/-- a step only ever appends to the pool -/
+theorem OSession.step_prefix (s : OSession) (op : OStirOp) : ∃ ext, (s.step op).pool = s.pool ++ ext := by
+  cases op with
+  | copy i =>
+    simp only [OSession.step]
+    cases h : s.pool[i]? with
+    | none => exact ⟨[], by simp⟩
+    | some o => exact ⟨[o], rfl⟩
+  | _ => exact ⟨[], by simp [OSession.step]⟩
+
+theorem OSession.run_prefix (s : OSession) (ops : List OStirOp) : ∃ ext, (s.run ops).pool = s.pool ++ ext := by
+  unfold OSession.run
+  induction ops generalizing s with
+  | nil => exact ⟨[], by simp⟩
+  | cons op ops ih =>
+    obtain ⟨e1, h1⟩ := OSession.step_prefix s op
+    obtain ⟨e2, h2⟩ := ih (s.step op)
+    exact ⟨e1 ++ e2, by rw [List.foldl_cons, h2, h1, List.append_assoc]⟩
+
+/-- the objects of the pool stay what they are, whatever is done -/
+theorem OSession.run_getElem? (s : OSession) (ops : List OStirOp) {i : Nat} (hi : i < s.pool.length) :
+    (s.run ops).pool[i]? = s.pool[i]? := by
+  obtain ⟨ext, h⟩ := OSession.run_prefix s ops
+  rw [h, List.getElem?_append_left hi]
+
+/-- every object of the pool after a history is a copy of an object of the pool before it -/
+theorem OSession.step_mem (s : OSession) (op : OStirOp) {o : Operand} (h : o ∈ (s.step op).pool) : o ∈ s.pool := by
+  cases op with
+  | copy i =>
+    simp only [OSession.step] at h
+    cases hi : s.pool[i]? with
+    | none => simpa [hi] using h
+    | some x =>
+      simp only [hi] at h
+      rcases List.mem_append.mp h with h | h
+      · exact h
+      · rw [List.mem_singleton.mp h]; exact List.mem_of_getElem? hi
+  | _ => exact h
+
+theorem OSession.run_mem (s : OSession) (ops : List OStirOp) {o : Operand} (h : o ∈ (s.run ops).pool) : o ∈ s.pool := by
+  unfold OSession.run at h
+  induction ops generalizing s with
+  | nil => exact h
+  | cons op ops ih => exact OSession.step_mem s op (ih (s.step op) (by simpa [List.foldl_cons] using h))
+
 end Barril
